@@ -50,3 +50,6 @@ chk("C09", "fault_enumeration", "crash-injection monitor: real SQLite writer kil
 chk("C08", "exploration", "history monitor (long-lived handle vs SQLite's view after every committed write of a PRNG history) + linearizability check of concurrent read/commit histories with porcupine",
     "12 (quick) / 200 (thorough) sequential histories of 40/120 steps over DML, DDL, VACUUM, incremental vacuum, growth and shrink, each read twice, on databases below and above the 100-page cache, through both APIs; 6/60 concurrent histories with two writer processes checked as a single register. Held on the histories generated.",
     "SQLite 3.40.1 in another process is writer and reference; porcupine timeout = inconclusive", "DESIGN.md 3 C08")
+chk("C06", "exploration", "schedule-controlled lock monitor: tracing pager over the real file pager stops the reader at every lock/page/unlock event and callback; F_GETLK probe and a real SQLite COMMIT attempt from other processes at every stop; online trace checker",
+    "Every operation x exit path (normal, early stop, unknown column/table/index, bad key, corrupt page mid-scan, callback panic) with a probe + writer attempt at every trace event and (strided) callback, plus second-handle injections in the same and in another process. Two parties at lock/page granularity; unix pager only.",
+    "F_GETLK / /proc/locks are truthful; python sqlite3 is the writer", "DESIGN.md 3 C06")
